@@ -396,7 +396,7 @@ pub fn run(tier: Tier, seed: u64) -> i32 {
     run.shrink_iters = 40;
     run.enumerate("regress", load_regress("C17"), false, case_regress);
     if !run.failed() {
-        run.random("bash", tier.pick(120, 4_000), 500, case);
+        run.random("bash", tier.pick(120, 2_000), 500, case);
     }
     let code = run.finish();
     cleanup_scratch();
